@@ -33,6 +33,13 @@ func (s *Store) snapshotRevert(revertTo Snapshot) error {
 		return err
 	}
 
+	// Like every other footer, the new footer links back to the footer
+	// that was current when it was written, so that SnapshotPrevious()
+	// can still walk the history of the file after a revert.
+	if s.footer != nil && s.footer.fileName == revertToFooter.fileName {
+		footer.PrevFooterOffset = s.footer.filePos
+	}
+
 	err = s.persistFooter(revertToFooter.SegmentLocs[0].mref.fref.file, footer,
 		persistOptions)
 	if err != nil {
